@@ -183,7 +183,7 @@ def _tiles(ivs, length):
     return False, f'accesses end at {cur}, not at the array length {length}'
 
 
-def accumulator(chk, fn):
+def accumulator(chk, fn, rule='C19-R3'):
     """R3: syntax-directed accumulator discipline."""
     f = 'cumsum'
     body = fn.body
@@ -193,7 +193,7 @@ def accumulator(chk, fn):
     if not stores:
         raise AnalysisError('cumsum: no store to out found')
     accs = {unparse(s.value) for s in stores}
-    chk.check(len(accs) == 1 and all(isinstance(s.value, ast.Name) for s in stores), 'C19-R3', UTIL, f,
+    chk.check(len(accs) == 1 and all(isinstance(s.value, ast.Name) for s in stores), rule, UTIL, f,
               'all stores write the same accumulator', f'stored values: {sorted(accs)}', 'stores write different expressions', node=stores[0])
     if not (len(accs) == 1 and isinstance(stores[0].value, ast.Name)):
         return
@@ -211,7 +211,7 @@ def accumulator(chk, fn):
                 others.append(n)
     ok_init = len(inits) == 1 and isinstance(inits[0].value, ast.Call) and len(inits[0].value.args) == 1 \
         and unparse(inits[0].value.args[0]) == 'offset'
-    chk.check(ok_init and not others, 'C19-R3', UTIL, f, 'accumulator starts at dtype(offset) and is only advanced by += arr[.]',
+    chk.check(ok_init and not others, rule, UTIL, f, 'accumulator starts at dtype(offset) and is only advanced by += arr[.]',
               f'init={unparse(inits[0]) if inits else None}; adds={[unparse(a) for a in adds]}',
               f'unexpected accumulator updates: init={[unparse(i) for i in inits]} others={[unparse(o) for o in others]}',
               node=inits[0] if inits else fn)
@@ -236,14 +236,14 @@ def accumulator(chk, fn):
         reads = [n for n in walk_no_nested(fn) if isinstance(n, ast.Subscript) and isinstance(n.value, ast.Name)
                  and n.value.id == 'arr' and isinstance(n.ctx, ast.Load)]
         ok_reads = len(reads) == len(adds)
-        chk.check(ok_loop and len(tail) <= 1 and ok_reads, 'C19-R3', UTIL, f,
+        chk.check(ok_loop and len(tail) <= 1 and ok_reads, rule, UTIL, f,
                   'in the loop the element is added before the store; every read of arr is an accumulation',
                   f'{detail}; tail={[unparse(t) for t in tail]}',
                   f'accumulation order broken: {detail}; tail adds={[unparse(t) for t in tail]}; reads={len(reads)} adds={len(adds)}', node=lp)
     else:
-        chk.refuted('C19-R3', UTIL, f, 'single accumulation loop', f'{len(loops)} top-level loops', node=fn)
+        chk.refuted(rule, UTIL, f, 'single accumulation loop', f'{len(loops)} top-level loops', node=fn)
     rets = [n for n in walk_no_nested(fn) if isinstance(n, ast.Return)]
-    chk.check(len(rets) >= 1 and all(isinstance(r.value, ast.Name) and r.value.id == acc for r in rets), 'C19-R3', UTIL, f,
+    chk.check(len(rets) >= 1 and all(isinstance(r.value, ast.Name) and r.value.id == acc for r in rets), rule, UTIL, f,
               'the accumulator is returned', f'returns {[unparse(r) for r in rets]}', 'return value is not the accumulator',
               node=rets[0] if rets else fn)
 
